@@ -41,12 +41,65 @@ CLAIMED = {
         text=("In every message position, for every option letter the detection code can return, the variant built by the "
               "real parse_with_variant is serialised under the tag that was read, or the field is rejected."),
         design_ref="DESIGN.md §4 C14"),
+    "C04": dict(
+        technique="source-level symbolic execution of the real validate_network_rules (syn AST -> z3: strings, Float64, presence bits) on a symbolic message instance, compared with independent reference rule models; models replayed through serde JSON against the real library",
+        text=("For 27 of the 30 types (all that have rules, minus MT192/MT200 whose rule code is not encodable) the solver decides, for every "
+              "message instance with up to K occurrences of each repeating part, that each documented error code is reported iff the "
+              "reference model of the rule says the rule is violated, and that nothing undocumented is reported."),
+        design_ref="DESIGN.md §4 C04"),
+    "C05": dict(
+        technique="Kani/CBMC bounded model checking of the compiled primitive validators and field kernels against byte-level reference predicates, all UTF-8 inputs up to the stated size",
+        text=("Solver verdict over every UTF-8 string up to the stated length for the character-class, length, BIC and currency "
+              "validators (accept iff in the documented class, no panic). Kernel only: the 114 field parsers are covered through "
+              "these primitives and the date-bearing field harnesses."),
+        design_ref="DESIGN.md §4 C05"),
+    "C06": dict(
+        technique="Kani/CBMC over all 26^3 currency codes (precision table vs ISO 4217 reference) and all short strings (currency shape, commodity codes)",
+        text=("Kernel only: the currency precision table and currency validators are decided exhaustively by the solver; the "
+              "float parsing / formatting pipeline is not reachable by either engine and is stated as outside the claim."),
+        design_ref="DESIGN.md §4 C06"),
+    "C07": dict(
+        technique="Kani/CBMC panic, overflow and unwinding obligations on the leaf parsers over all UTF-8 inputs up to the stated size + loop-progress obligations of all 30 layout functions (source-level symbolic execution, z3)",
+        text=("No panic and bounded loops for every input up to the stated sizes on date/time, character-class, BIC, currency, header and "
+              "tokeniser kernels; every loop of every parse_from_block4 consumes a token per iteration (no hang)."),
+        design_ref="DESIGN.md §4 C07"),
+    "C08": dict(
+        technique="source-level symbolic execution of the custom serde codec modules (z3 strings/ints, chrono model) for all dates 1950-2049 and all clock times",
+        text=("Kernel only: deserialize(serialize(v)) == v for the four hand-written date/time codecs; derived serde and the "
+              "plugin paths are stated as outside the claim."),
+        design_ref="DESIGN.md §4 C08"),
+    "C10": dict(
+        technique="Kani/CBMC on BasicHeader/ApplicationHeader::parse (components = slices at documented offsets, wrong length/direction rejected, no panic) + source-level symbolic execution of UserHeader/Trailer Display (every documented tag held is written)",
+        text=("Header parsing decided for all inputs of the fixed layouts' lengths; block 3/5 serialisation decided for every subset of "
+              "present tags. Block extraction and message assembly are outside the claim."),
+        design_ref="DESIGN.md §4 C10"),
     "C11": dict(
-        technique="Kani/CBMC bounded model checking of the compiled date/time parsers vs. a reference calendar, all byte values",
-        text=("Solver verdict over every byte string of the stated lengths for parse_date_yymmdd / parse_time_hhmm "
-              "(accept iff digits and calendar/clock valid, value equal, no panic), chrono formatting round trip, "
-              "field-local date paths and JSON date codecs compared with the shared primitive."),
+        technique="Kani/CBMC of the compiled date/time parsers and every date-bearing field parser vs a reference calendar (all six-digit strings) + source-level symbolic execution of the serialisers and JSON codecs (all dates 1950-2049)",
+        text=("Solver verdict over every byte string of the stated lengths for parse_date_yymmdd / parse_time_hhmm, over all 10^6 digit "
+              "strings for each date-bearing field (same digits, same date, calendar-valid only), and over all dates of the pivot window "
+              "for to_swift_string (digits reproduced) and the JSON codecs (same meaning in JSON)."),
         design_ref="DESIGN.md §4 C11"),
+    "C12": dict(
+        technique="dispatch tables extracted from source (syn) and decided by z3 for all 1000 three-digit codes",
+        text=("Every dispatch table of the five entry points routes each code 000-999 to the type whose message_type() is that code, "
+              "unknown codes to 'unsupported'; typed parse checks the type (T03) before parsing block 4. Closed domain."),
+        design_ref="DESIGN.md §4 C12"),
+    "C13": dict(
+        technique="source-level symbolic execution of validate_network_rules with a symbolic stop_on_first_error flag; prefix / non-emptiness relations decided by z3; replayed natively",
+        text=("For every message instance (K occurrences) of 26 types: the stop-on-first list is non-empty iff the full list is, and "
+              "its first positions equal the full list's; re-validation and non-mutation are confirmed on every replayed witness."),
+        design_ref="DESIGN.md §4 C13"),
+    "C16": dict(
+        technique="Kani/CBMC on the tokeniser's tag normalisation / base-tag helpers (all short strings) and, in the thorough tier, the consumption tracker and parse_block4_fields on tiny texts",
+        text=("Bounded kernel: normalize_field_tag and extract_base_tag decided for all inputs up to 4-5 bytes against the documented rule; "
+              "tracker and tokeniser only in the thorough tier."),
+        design_ref="DESIGN.md §4 C16"),
+    "C17": dict(
+        technique="source-level symbolic execution of the classification predicates and the plugin's method selection on symbolic field-72 lines (z3 strings) and finite MUR/119 candidate sets; replayed natively",
+        text=("reject / return / cover per type equal the presence of the documented code words (same words in MT103/202/205); "
+              "message-level predicates add the MUR; the plugin's method equals the priority chain over those predicates."),
+        design_ref="DESIGN.md §4 C17"),
+
 }
 
 NOT_YET = {}
